@@ -68,6 +68,7 @@ class Sched:
         self.switch_prob = 0.0
         self.n_points = 0
         self.fair_quantum = 20000
+        self._evaluating = 0   # > 0 while the scheduler itself evaluates a waiting condition
         self.virtual_timeouts = 0
         self.double_instances = {'rlock': 0, 'event': 0}
 
@@ -127,10 +128,14 @@ class Sched:
             return True
         if t.state == 'blocked':
             b = t.block
-            if b[0] == 'cond' and b[1]():
-                return True
-            if b[0] == 'poll' and b[1]():
-                return True
+            if b[0] in ('cond', 'poll'):
+                # the condition is the harness' own code, but it may call into monitored code (len(manager), ...): no yield points in
+                # there - a switch in the middle of the scheduler's own decision would hand the baton on from stale information
+                self._evaluating += 1
+                try:
+                    return bool(b[1]())
+                finally:
+                    self._evaluating -= 1
         return False
 
     def _pick(self, exclude=None):
@@ -222,8 +227,13 @@ class Sched:
 
     def block(self, reason, where):
         me = self._me()
-        if reason[0] == 'cond' and reason[1]():
-            return False
+        if reason[0] == 'cond':
+            self._evaluating += 1
+            try:
+                if reason[1]():
+                    return False
+            finally:
+                self._evaluating -= 1
         me.state = 'blocked'
         me.block = reason
         me.timed_out = False
@@ -240,6 +250,8 @@ class Sched:
 
     # -- yield points ------------------------------------------------------------------------------
     def point(self, me, filename, line, funcname):
+        if self._evaluating:
+            return
         me.points += 1
         self.n_points += 1
         if len(self.trace) > 400:
